@@ -43,6 +43,7 @@ var Prop = &engine.Prop{
 		{Name: "parked", Quick: 12000, Thorough: 400000, Fn: parkedCase},
 		{Name: "priq-seq", Quick: 20000, Thorough: 600000, Fn: priqSeqCase},
 		{Name: "priq-stress", Quick: 24, Thorough: 600, Repeat: 20, Fn: priqStressCase},
+		{Name: "priq-race", Quick: 160, Thorough: 4800, Repeat: 20, Fn: priqRaceCase},
 		{Name: "cond-stress", Quick: 24, Thorough: 600, Repeat: 20, Fn: condStressCase},
 	},
 	Floors: map[string]int64{
@@ -53,6 +54,7 @@ var Prop = &engine.Prop{
 		"burst_steps":                  100,
 		"priq_invariant_checks":        5000,
 		"priq_stress_items":            1000,
+		"priq_race_rounds":             10000,
 		"cond_stress_items":            1000,
 	},
 }
@@ -576,6 +578,7 @@ func priqStressCase(k *engine.Case) {
 	var consumed atomic.Int64
 	seen := make([]atomic.Int32, producers*per+1)
 	var prodWG sync.WaitGroup
+	space := make(chan struct{}, producers*per+1)
 	for p := 0; p < producers; p++ {
 		p := p
 		prodWG.Add(1)
@@ -584,7 +587,7 @@ func priqStressCase(k *engine.Case) {
 			for i := 0; i < per; i++ {
 				e := &pent{prio: (p + i) % 3, id: p*per + i + 1}
 				for pq.Push(e) != nil {
-					runtime.Gosched()
+					<-space // full: park until a consumer has popped (no spinning, so a sleeping system is quiet)
 				}
 			}
 			return nil
@@ -598,6 +601,10 @@ func priqStressCase(k *engine.Case) {
 					if e := pq.Pop(); e != nil {
 						seen[e.(*pent).id].Add(1)
 						consumed.Add(1)
+						select {
+						case space <- struct{}{}:
+						default:
+						}
 					}
 				case <-done:
 					return nil
@@ -625,6 +632,24 @@ func priqStressCase(k *engine.Case) {
 	}
 	l := pq.Len()
 	close(done)
+	if stuck {
+		// release producers parked on a full queue
+		for i := 0; i < producers*per+1; i++ {
+			select {
+			case space <- struct{}{}:
+			default:
+			}
+		}
+		go func() {
+			for pq.Pop() != nil || len(d.Pending()) > 0 {
+				select {
+				case space <- struct{}{}:
+				default:
+				}
+				runtime.Gosched()
+			}
+		}()
+	}
 	d.Join()
 	k.Count("priq_stress_items", consumed.Load())
 	k.Logf("consumed=%d of %d, left in queue at the fixed point=%d", consumed.Load(), total, l)
@@ -752,5 +777,88 @@ func condStressCase(k *engine.Case) {
 			k.Fail("invented-item", "stress: refused item %d was handed out", v)
 			return
 		}
+	}
+}
+
+// ---------------------------------------------------------------- priority queue, pop/push race rounds
+
+// priqRaceCase races one Pop (of the last entry, after receiving the signal) against one
+// complete Push, thousands of times, and checks the wait-channel clause at the quiescent
+// point after both calls have returned: the queue holds the pushed entry, nobody holds a
+// signal, so the channel must be readable.
+func priqRaceCase(k *engine.Case) {
+	r := k.R
+	procs := []int{2, 4, 8, 16}[r.Intn(4)]
+	old := runtime.GOMAXPROCS(procs)
+	defer runtime.GOMAXPROCS(old)
+	rounds := 1500
+	pairs := 1 + r.Intn(4)
+	k.Logf("priq pop/push race: %d pair(s) x %d rounds, gomaxprocs=%d", pairs, rounds, procs)
+	k.Nontrivial()
+	var bad atomic.Int64
+	var firstBad atomic.Value
+	var wg sync.WaitGroup
+	seeds := make([]uint64, pairs)
+	for i := range seeds {
+		seeds[i] = uint64(r.Int63()) | 1
+	}
+	for p := 0; p < pairs; p++ {
+		p := p
+		wg.Add(1)
+		go func() {
+			defer wg.Done()
+			pq := priq.NewPriQueue(1 << 16)
+			x := seeds[p]
+			next := func() uint64 { x ^= x << 13; x ^= x >> 7; x ^= x << 17; return x }
+			startC, startP := make(chan int, 1), make(chan int, 1)
+			doneC, doneP := make(chan struct{}, 1), make(chan struct{}, 1)
+			go func() { // consumer: receive the signal, pop the last entry
+				for spin := range startC {
+					for i := 0; i < spin; i++ {
+						_ = i
+					}
+					<-pq.WaitCh()
+					pq.Pop()
+					doneC <- struct{}{}
+				}
+			}()
+			go func() { // producer: one complete push
+				id := 0
+				for spin := range startP {
+					for i := 0; i < spin; i++ {
+						_ = i
+					}
+					id++
+					pq.Push(&pent{prio: 1, id: id})
+					doneP <- struct{}{}
+				}
+			}()
+			for i := 0; i < rounds; i++ {
+				// state: exactly one entry, signal present
+				for pq.Pop() != nil {
+				}
+				select {
+				case <-pq.WaitCh():
+				default:
+				}
+				pq.Push(&pent{prio: 1, id: -1})
+				startC <- int(next() % 64)
+				startP <- int(next() % 64)
+				<-doneC
+				<-doneP
+				// quiescent: no call in progress, the consumer followed its signal by a Pop
+				if l := pq.Len(); l > 0 && len(pq.WaitCh()) != 1 {
+					bad.Add(1)
+					firstBad.CompareAndSwap(nil, fmt.Sprintf("pair %d round %d: Len()=%d but the wait channel is empty", p, i, l))
+				}
+			}
+			close(startC)
+			close(startP)
+		}()
+	}
+	wg.Wait()
+	k.Count("priq_race_rounds", int64(pairs*rounds))
+	if n := bad.Load(); n > 0 {
+		k.Fail("priq-channel-not-readable", "in %d of %d pop/push race rounds the queue ended non-empty with no call in progress and no outstanding signal, but the wait channel was not readable; first: %v", n, pairs*rounds, firstBad.Load())
 	}
 }
